@@ -242,7 +242,7 @@ func (e *Exec) assertProp(th *Thread, cond *Term, label string) {
 		return
 	}
 	e.pending = append(e.pending, pendingAssert{cond: cond, label: label, stack: e.stack(th)})
-	if cond.IsFalse() || len(e.pending) >= 64 {
+	if cond.IsFalse() || len(e.pending) >= 64 || e.opts.NoBatch {
 		e.flushAsserts()
 	}
 }
